@@ -29,13 +29,25 @@ func (l *syntaxErrorListener) SyntaxError(recognizer antlr.Recognizer, offending
 	l.errs = append(l.errs, fmt.Sprintf("line %d:%d %s", line, column, msg))
 }
 
+// recoveredError turns a recovered panic value into an error. Formatting the
+// value can panic itself (fmt gives up when the String method of a panic
+// value panics again), so it is guarded.
+func recoveredError(info interface{}) (err error) {
+	defer func() {
+		if r := recover(); r != nil {
+			err = fmt.Errorf("panic of type %T", info)
+		}
+	}()
+	return fmt.Errorf("%q", info)
+}
+
 func NewEvaluator(rule string) (ret *Evaluator, retErr error) {
 	// antlr lib has panics for exceptions so we have to put a recover here
 	// in the unlikely case there is an exception
 	defer func() {
 		info := recover()
 		if info != nil {
-			retErr = fmt.Errorf("%q", info)
+			retErr = recoveredError(info)
 		}
 	}()
 	// white space around the rule (e.g. the newline at the end of a file) is
@@ -87,7 +99,7 @@ func (e *Evaluator) Process(items map[string]interface{}) (ret bool, retErr erro
 	defer func() {
 		info := recover()
 		if info != nil {
-			retErr = fmt.Errorf("%q", info)
+			retErr = recoveredError(info)
 			ret = false
 		}
 	}()
